@@ -56,7 +56,7 @@ PROPS = {
                 "date, or is not a plain fixed-duration task; distinct = distinct script text",
         "assumptions": ["the task formulas emitted by the real code are those of the model (ENC, restricted to "
                         "owners task:* and problem)"],
-        "n": {"quick": 200, "thorough": 4000},
+        "n": {"quick": 300, "thorough": 4000},
     },
     "C10": {
         "theorems": ["C10_connective_raw", "C10_connective", "C10_optional", "C10_mandatory", "C10_forceApplyN",
@@ -74,7 +74,7 @@ PROPS = {
                 "= at least one connective or force-apply rule; distinct = distinct script text",
         "assumptions": ["assertions emitted for constraints by the real code are those of the model (ENC, all constr:* owners), "
                         "or logically equivalent to them on the script (z3, tier 2)"],
-        "n": {"quick": 200, "thorough": 3000},
+        "n": {"quick": 350, "thorough": 3000},
     },
     "C03": {
         "theorems": ["C03_raw_sound", "C03_task_constraints", "C03_optional_constraints", "C03_scheduleN_lower", "C03_scheduleN_enforced", "C03_spec_sound"],
@@ -90,7 +90,7 @@ PROPS = {
         "assumptions": ["the task-constraint formulas emitted by the real code are those of the model (ENC, owners constr:*:<task "
                         "constraint class>) or equivalent on the script (z3)",
                         "TasksContiguous and the upper side of ScheduleNTasksInTimeIntervals: see known findings / partial theorems"],
-        "n": {"quick": 250, "thorough": 4000},
+        "n": {"quick": 400, "thorough": 4000},
     },
     "C04": {
         "theorems": ["C04_raw_sound", "C04_resource_constraints", "workloadOne_sound", "sortNoDup_sound", "C04_periodic_own_period",
@@ -100,6 +100,9 @@ PROPS = {
         "profiles": [("resc", 0.45), ("focus_resc", 0.4), ("all", 0.15)],
         "relevant": lambda o: owner_in(o, (), RES_CLASSES),
         "spec": "C04",
+        "run_profiles": ["focus_resc", "focus_resc", "resc"],
+        "n_run": {"quick": 120, "thorough": 2500},
+        "run_check": __import__("harness.c04", fromlist=["x"]).run_c04,
         "nontrivial": lambda s: any(d["op"] == "constraint" and d["c"][0] in
                                     ("unavailable", "workload", "nonDelay", "distance", "sameWorkers", "distinctWorkers",
                                      "interrupted", "periodicallyUnavailable", "periodicallyInterrupted") for d in s),
@@ -109,11 +112,15 @@ PROPS = {
                 "period; start / offset / end masks) / Same- and DistinctWorkers on plain and cumulative workers, fixed-, zero- "
                 "and variable-duration tasks, direct and selected assignments, declared before and after further assignments "
                 "(the generator draws assigned resources, and resources with two busy intervals for the gap constraints; 6 % "
-                "ill-formed); non-trivial = at least one resource constraint; distinct = distinct script text",
+                "ill-formed); RUN (gap classes, which have no SEM twin): for every mandatory ResourceNonDelay / "
+                "ResourceTasksDistance on a plain worker, z3 is asked for a schedule admitted by the real assertions in which two "
+                "consecutive real busy intervals break the documented relation; a model is re-evaluated in plain Python (sort by "
+                "start, walk the gaps) before it is reported; non-trivial = at least one resource constraint; distinct = "
+                "distinct script text",
         "assumptions": ["resource-constraint formulas emitted by the real code are those of the model (ENC) or equivalent (z3)",
                         "periodic classes: the window of the period the busy interval starts in (F13, F39: the next period's "
                         "window can be overlapped); ResourceTasksDistance / NonDelay have a theorem but no SEM twin"],
-        "n": {"quick": 250, "thorough": 4000},
+        "n": {"quick": 400, "thorough": 4000},
     },
     "C08": {
         "theorems": ["C08_body_sound", "C08_indicator_value", "C08_target_bounds", "linear_trapezoid", "C08_spec_sound"],
@@ -130,7 +137,7 @@ PROPS = {
                         "IndicatorResourceIdle and non-constant cost functions: ENC only (no spec twin); polynomial costs are the "
                         "trapezoid as implemented, not claimed equal to the integral",
                         "build_solution reports the value of the indicator variable (SOL channel, C11)"],
-        "n": {"quick": 250, "thorough": 4000},
+        "n": {"quick": 400, "thorough": 4000},
     },
     "C18": {
         "theorems": ["fieldTable_meets_spec", "C18_task_iff", "C18_worker_iff", "C18_select_iff", "C18_buffer_iff",
@@ -157,7 +164,8 @@ PROPS = {
     },
     "C11": {
         "theorems": ["C11_reports_model", "C11_duration", "C11_horizon", "C11_calendar", "C11_assigned_has_requirement",
-                     "C11_unscheduled_no_assignment", "C02_busy_span"],
+                     "C11_unscheduled_no_assignment", "C11_task_iff_resource", "resourceSols_view", "busyOf_keys",
+                     "C02_busy_span"],
         "profiles": [("core", 1.0)],
         # "the reported interval is the one the requirement implies" rests on the requirement formulas (C02_busy_span)
         "relevant": lambda o: owner_in(o, ("req:",)),
@@ -176,8 +184,10 @@ PROPS = {
                 "distinct = distinct (script, seed)",
         "assumptions": ["FlagsAgree (no task requires one worker through two routes) and delay-in below the task number for "
                         "the 'unscheduled => no assignment' theorem (finding F19)",
-                        "the 'task lists r iff r lists the task' equivalence is decided by SOL + the two one-directional lemmas, "
-                        "not yet by a single theorem"],
+                        "C11_task_iff_resource assumes pairwise different workers, nobody else reporting under a worker's own "
+                        "name, and busy intervals that start at a non-negative instant ending at one (delays fit durations); a "
+                        "CumulativeWorker listed inside a SelectWorkers breaks the equivalence in the real code (finding F40, "
+                        "outside the model)"],
         "n": {"quick": 120, "thorough": 2000},
     },
     "C16": {
@@ -194,7 +204,10 @@ PROPS = {
                 "calendar times, both optimisers) are solved with real z3; to_df / to_csv (string and ';'-separated file) / "
                 "to_json / to_excel_file (colors on and off) / export_to_smt2 are run and read back (csv, json, zipfile + "
                 "xml.etree, z3.parse_smt2_string) and compared cell by cell with the model's dfRows / excelCells and with "
-                "the solution object / the solver's assertions; distinct = distinct (script, seed)",
+                "the solution object / the solver's assertions; every task and every cost function of the problem is "
+                "serialised with to_json, read back with model_validate_json into a fresh problem and compared (definition "
+                "fields, emitted assertions, function values at integer points and at a symbolic point); calendars with time "
+                "steps of minutes, hours, a day, a day and a half; distinct = distinct (script, seed)",
         "assumptions": ["pandas, xlsxwriter, pydantic's JSON dump and z3's SMT-LIB printer are not modelled: their output is "
                         "read back and compared",
                         "Excel: a zero-length item is written like a length-1 item and an item starting at -1 erases the name "
@@ -224,7 +237,7 @@ PROPS = {
         "theorems": ["C05_complete_core", "C05_unsat_means_no_valid_schedule", "task_complete", "reqs_complete",
                      "core_raw_complete", "noOverlapPairs_complete", "interruptedOne_complete", "periodicOne_complete",
                      "periodicInterruptedOne_complete"],
-        "profiles": [("all", 0.35), ("frag", 0.25), ("resc", 0.15), ("fol", 0.25)],
+        "profiles": [("all", 0.3), ("frag", 0.2), ("resc", 0.1), ("fol", 0.15), ("focus_resc", 0.15), ("focus_taskc", 0.1)],
         "relevant": lambda o: True,
         "spec": None,
         "exact": True,
@@ -242,7 +255,7 @@ PROPS = {
         "assumptions": ["theorem C05_complete_core covers the core fragment (InCore); outside it completeness rests on the exact "
                         "ENC correspondence with the model and on the known findings list",
                         "z3 is complete on the emitted fragment (hypothesis ConsistentAns)"],
-        "n": {"quick": 200, "thorough": 3000},
+        "n": {"quick": 400, "thorough": 3000},
     },
     "C06": {
         "theorems": ["C06_scheduled_as_mandatory", "C06_parked", "C06_busy_parked", "C06_blocks_nobody",
@@ -264,7 +277,7 @@ PROPS = {
         "assumptions": ["the equality of the two schedule sets is decided by ENC + RUN inside the fragment, the local inertness "
                         "facts by theorems; buffers (F16), release dates (F7), work amounts (F26), groups / ScheduleN (F18), "
                         "interruptions (F24), delayed requirements (F19) of optional tasks are recorded findings"],
-        "n": {"quick": 200, "thorough": 3000},
+        "n": {"quick": 350, "thorough": 3000},
     },
     "C07": {
         "theorems": ["incLoop_spec", "C07_anytime", "C07_optimal", "incLoop_bound", "C07_bound_stop", "C07_weighted",
@@ -310,8 +323,8 @@ PROPS = {
         "profiles": [("core", 1.0)],
         "relevant": lambda o: False,
         "spec": None,
-        "sm_profiles": ["obj", "taskc", "core"], "run_profiles": ["obj", "taskc"],
-        "n_sm": {"quick": 150, "thorough": 3000}, "n_run": {"quick": 24, "thorough": 400},
+        "sm_profiles": ["obj", "taskc", "core"], "run_profiles": ["obj", "obj", "obj", "taskc"],
+        "n_sm": {"quick": 150, "thorough": 3000}, "n_run": {"quick": 70, "thorough": 800},
         "run_check": __import__("harness.solverprops", fromlist=["x"]).run_c13,
         "nontrivial": lambda s: True,
         "rule": "SM: random sequences (1..8) of initialize / export / solve / find_another* under both optimisers, debug, "
@@ -388,7 +401,7 @@ PROPS = {
                         "accesses count)",
                         "z3 decides the quantified pulse formulas of concurrent buffers (unknown answers are counted, not "
                         "treated as violations)"],
-        "n": {"quick": 200, "thorough": 4000},
+        "n": {"quick": 300, "thorough": 4000},
     },
     "C14": {
         "theorems": ["C14_fresh_problem", "C14_run_after_problem", "C14_valid_order_free", "C05_complete_core"],
@@ -434,7 +447,7 @@ PROPS = {
         "assumptions": ["the requirement, non-overlap and work-amount formulas emitted by the real code are those of "
                         "the model (ENC, owners req:*, worker:*, work:*)",
                         "delay_in + early_out <= duration is the user's responsibility (DelaysFit)"],
-        "n": {"quick": 200, "thorough": 4000},
+        "n": {"quick": 300, "thorough": 4000},
     },
 }
 
